@@ -42,10 +42,10 @@ structure Path where
 def childNamed (n : Node) (s : Str) : Option Nat :=
   match n.kind with
   | .scalar => none
-  | .map => let i := n.kids.findIdx (fun k => k.name == s); if i < n.kids.length then some i else none
+  | .map => let i := n.kids.findIdx (fun k => k.key == s); if i < n.kids.length then some i else none
   | _ => (pyInt s).bind (pyListIndex n.kids.length)
 
-def nodeAt (root : Node) (el : Pos) : Node := (root.get? el).getD (.mk .scalar [] [])
+def nodeAt (root : Node) (el : Pos) : Node := (root.get? el).getD (.mk .scalar [] [] [])
 
 /-- step of a slice: `[a:b]` has none, `[a:b:]` has an omitted one -/
 def Step.stride (c : Option (Option Int)) : Option Int := c.bind id
@@ -60,7 +60,10 @@ def stepDen (root : Node) (strict : Bool) (s : Step) (el : Pos) : Except Err (Li
     | some i => .ok [el ++ [i]]
     | none => if strict then .error .lookup else .ok []
   | .negidx k => .ok ((pyListIndex n.kids.length (-(k : Int))).toList.map (fun i => el ++ [i]))
-  | .slice a b c => .ok ((pySlice n.kids.length a b (Step.stride c)).map (fun i => el ++ [i]))
+  | .slice a b c =>
+    -- the Python slice a:b:c; a zero step is Python's `ValueError: slice step cannot be zero`
+    if Step.stride c == some 0 then .error .value
+    else .ok ((pySlice n.kids.length a b (Step.stride c)).map (fun i => el ++ [i]))
 
 /-- apply `f` to every element in order and concatenate; the first error wins -/
 def flatMapM {α β : Type} (f : α → Except Err (List β)) : List α → Except Err (List β)
@@ -234,8 +237,8 @@ def print (p : CPath) : Str :=
   (if p.top then ['/'] else []) ++ printSteps true p.steps
     ++ (if p.trail && !p.steps.isEmpty then ['/'] else [])
 
-/-- names the grammar can spell: non-empty and not ending in a backslash (a backslash cannot
-    itself be escaped, so it would swallow the separator that follows) -/
+/-- names the grammar can spell in any position: non-empty and not ending in a backslash (a
+    backslash cannot itself be escaped, so it would swallow the separator that follows) -/
 def GoodName (s : Str) : Bool := !s.isEmpty && s.getLast? != some '\\'
 
 def CStep.wf (c : CStep) : Bool :=
@@ -243,6 +246,18 @@ def CStep.wf (c : CStep) : Bool :=
     | .name s => GoodName s
     | _ => true
 
-def CPath.wf (p : CPath) : Bool := p.steps.all CStep.wf
+/-- the very last step of a path without a trailing slash has nothing after it, so there a
+    name may end in a backslash (`find('/x\\')` works) -/
+def CStep.wfLast (c : CStep) : Bool :=
+  c.step.wf && match c.step with
+    | .name s => !s.isEmpty
+    | _ => true
+
+def wfSteps (trail : Bool) : List CStep → Bool
+  | [] => true
+  | [c] => if trail then c.wf else c.wfLast
+  | c :: r => c.wf && wfSteps trail r
+
+def CPath.wf (p : CPath) : Bool := wfSteps p.trail p.steps
 
 end Flatland.C14.Spec
